@@ -43,6 +43,13 @@ def stress_jobs(rng, n):
         c = C01.cap(v, level, md) - rng.choice([0, 0, 1, 2])
         f = C01.filler(rng, md, max(0, c), 1)
         jobs.append(dict(sym="qr", content=list(f if isinstance(f, bytes) else f.encode()), p=[level, rng.choice([0, {1: 1, 2: 2, 4: 3}[md]])]))
+    # degenerate contents: data blocks that are all zero (or all one) bits take the early exits of the polynomial arithmetic
+    jobs.append(dict(sym="qr", content=list(b"1" + b"0" * 100), p=[3, 0]))
+    jobs.append(dict(sym="qr", content=list(b"0" * 60), p=[rng.randrange(4), 1]))
+    jobs.append(dict(sym="qr", content=[0] * 40, p=[1, 3]))
+    jobs.append(dict(sym="aztec", content=[0] * 30, p=[23, 0]))
+    jobs.append(dict(sym="pdf", content=list(b"0" * 44), p=[2]))
+    jobs.append(dict(sym="dm", content=[255] * 20, p=[]))
     # error paths: refused inputs (too long for the largest symbol, characters outside the mode) must leave nothing running either
     jobs.append(dict(sym="qr", content=[65] * rng.choice([4297, 4400, 5000]), p=[0, rng.choice([0, 2])]))
     jobs.append(dict(sym="qr", content=[49] * rng.choice([7090, 7200]), p=[0, rng.choice([0, 1])]))
